@@ -94,6 +94,9 @@ class FloatConstant(_Constant):
             self.value = float(value)
         except Exception:
             raise ValueError("must be a float.")
+        if self.value != self.value or self.value in (float("inf"), float("-inf")):
+            # (the pattern language has no way to write them)
+            raise ValueError("must be a finite float.")
 
     def __str__(self):
         # The pattern grammar has no exponent notation, and requires a
@@ -194,9 +197,11 @@ class BinaryConstant(_Constant):
             if m:
                 value = m.group(1)
         try:
-            base64.b64decode(value)
+            # (validate=True: other characters are not skipped but refused,
+            # as the pattern grammar does)
+            base64.b64decode(value, validate=True)
             self.value = value
-        except (binascii.Error, TypeError):
+        except (binascii.Error, TypeError, ValueError):
             raise ValueError("must contain a base64 encoded string")
 
     def __str__(self):
@@ -212,10 +217,10 @@ class HexConstant(_Constant):
     def __init__(self, value, from_parse_tree=False):
         # support with or without an 'h'
         # (the grammar admits the empty constant h'')
-        if not from_parse_tree and re.match('^([a-fA-F0-9]{2})*$', value):
+        if not from_parse_tree and re.match(r'^([a-fA-F0-9]{2})*\Z', value):
             self.value = value
         else:
-            m = re.match("^h'(([a-fA-F0-9]{2})*)'$", value)
+            m = re.match(r"^h'(([a-fA-F0-9]{2})*)'\Z", value)
             if m:
                 self.value = m.group(1)
             else:
@@ -671,6 +676,8 @@ class RepeatQualifier(_ExpressionQualifier):
             self.times_to_repeat = IntegerConstant(times_to_repeat)
         else:
             raise ValueError("%s is not a valid argument for a Repeat Qualifier" % times_to_repeat)
+        if self.times_to_repeat.value < 0:
+            raise ValueError("%s is not a valid argument for a Repeat Qualifier" % times_to_repeat)
 
     def __str__(self):
         return "REPEATS %s TIMES" % self.times_to_repeat
@@ -690,6 +697,8 @@ class WithinQualifier(_ExpressionQualifier):
         elif isinstance(number_of_seconds, float):
             self.number_of_seconds = FloatConstant(number_of_seconds)
         else:
+            raise ValueError("%s is not a valid argument for a Within Qualifier" % number_of_seconds)
+        if self.number_of_seconds.value < 0:
             raise ValueError("%s is not a valid argument for a Within Qualifier" % number_of_seconds)
 
     def __str__(self):
